@@ -32,6 +32,11 @@ type ExactCase struct {
 	Queries [][]float32 `json:"queries"`
 	QStored []int       `json:"qstored"` // also query with stored point i (mod n)
 	Ks      []int       `json:"ks"`
+	// Sub: sub-flags of the heuristic mode: 0 the defaults (extendCandidates=false, keepPruned=true), 1 extend+keep, 2 extend only, 3 neither
+	Sub int `json:"sub,omitempty"`
+	// Dups: after item i (mod n) was inserted, an insert of an id that is already stored (Dups[i] mod (i+1)) with a
+	// different vector is attempted; it is refused and must leave no trace (the collection stays insert-only)
+	Dups map[int]int `json:"dups,omitempty"`
 }
 
 func genExact(t *rapid.T) ExactCase {
@@ -50,6 +55,15 @@ func genExact(t *rapid.T) ExactCase {
 	c.Queries = rapid.SliceOfN(vec, 1, 3).Draw(t, "queries")
 	c.QStored = rapid.SliceOfN(rapid.IntRange(0, 40), 0, 2).Draw(t, "qstored")
 	c.Ks = rapid.SliceOfN(rapid.SampledFrom([]int{1, 2, 3, 5, 10, 33, 40}), 1, 3).Draw(t, "ks")
+	if c.Heur {
+		c.Sub = rapid.SampledFrom([]int{0, 0, 1, 2, 3}).Draw(t, "sub")
+	}
+	if rapid.IntRange(0, 2).Draw(t, "withdups") == 0 {
+		c.Dups = map[int]int{}
+		for _, at := range rapid.SliceOfNDistinct(rapid.IntRange(0, n-1), 1, 3, rapid.ID[int]).Draw(t, "dupat") {
+			c.Dups[at] = rapid.IntRange(0, 40).Draw(t, "dupof")
+		}
+	}
 	return c
 }
 
@@ -58,6 +72,14 @@ func checkExact(c ExactCase, o *pbt.Obs) *pbt.Failure {
 	opts := []index.HnswOption{index.HnswM(c.M), index.HnswEf(c.Ef), index.HnswEfConstruction(c.EfC)}
 	if c.Heur {
 		opts = append(opts, index.HnswSearchAlgorithm(index.HnswSearchHeuristic))
+		switch c.Sub {
+		case 1:
+			opts = append(opts, index.HnswHeuristicExtendCandidates(true), index.HnswHeuristicKeepPruned(true))
+		case 2:
+			opts = append(opts, index.HnswHeuristicExtendCandidates(true), index.HnswHeuristicKeepPruned(false))
+		case 3:
+			opts = append(opts, index.HnswHeuristicExtendCandidates(false), index.HnswHeuristicKeepPruned(false))
+		}
 	}
 	sp := idxsm.NewSpace(c.Metric)
 	idx := index.NewHnsw(uint(c.Dim), sp, opts...)
@@ -68,6 +90,14 @@ func checkExact(c ExactCase, o *pbt.Obs) *pbt.Failure {
 		}
 		if i > 0 && c.Levels[i] > 0 {
 			upper = true
+		}
+		if of, ok := c.Dups[i]; ok {
+			// an id that is already stored, offered again with another vector and level: refused, and without a trace
+			other := append([]float32(nil), c.Queries[0]...)
+			if err := idx.Insert(gen.ID(of%(i+1)+2), amath.Vector(other), nil, (c.Levels[i]+1)%4); err != index.ItemAlreadyExistsError {
+				return pbt.Failf("C07:duplicate-insert-not-refused", "insert of the stored id #%d returned %v", of%(i+1), err)
+			}
+			o.Label("refused-duplicate-insert-in-the-history")
 		}
 	}
 	queries := append([][]float32(nil), c.Queries...)
@@ -105,7 +135,7 @@ func checkExact(c ExactCase, o *pbt.Obs) *pbt.Failure {
 			if k < want {
 				want = k
 			}
-			where := fmt.Sprintf("M=%d heur=%v ef=%d efc=%d metric=%d n=%d k=%d levels=%v", c.M, c.Heur, c.Ef, c.EfC, c.Metric, n, k, c.Levels)
+			where := fmt.Sprintf("sub=%d dups=%v M=%d heur=%v ef=%d efc=%d metric=%d n=%d k=%d levels=%v", c.Sub, c.Dups, c.M, c.Heur, c.Ef, c.EfC, c.Metric, n, k, c.Levels)
 			if len(res) != want {
 				return pbt.Failf("C07:not-exact/length", "%s: %d results, expected min(k,n)=%d", where, len(res), want)
 			}
@@ -149,7 +179,7 @@ func checkExact(c ExactCase, o *pbt.Obs) *pbt.Failure {
 func TestExactOnSmallCollections(t *testing.T) {
 	pbt.Run(t, pbt.Prop[ExactCase]{
 		ID: "C07", Name: "TestExactOnSmallCollections",
-		Rule: "rapid-generated insert-only collections with n in [1,2M+1] (M in {1..8,16}, default mMax/mMax0), generated insertion order, arbitrary levels 0..6, both selection modes with default sub-flags, efConstruction in {1..200}, ef 1..40, three metrics, grid (tie-heavy) and float vectors, queries incl. stored points, k in {1..40}; judged only where n<=max(ef,k); oracle: the score sequence equals the sorted brute-force distances[:min(k,n)] exactly and every id's true distance equals its score; non-trivial = n>=3 with upper levels or ties present; distinct = distinct case JSON",
+		Rule: "rapid-generated insert-only collections with n in [1,2M+1] (M in {1..8,16}, default mMax/mMax0), generated insertion order, arbitrary levels 0..6, both selection modes, the heuristic with its default sub-flags and with the three other (extendCandidates, keepPruned) combinations; in a third of the cases 1-3 inserts of an already stored id with another vector are attempted during the history (refused, and must leave no trace), efConstruction in {1..200}, ef 1..40, three metrics, grid (tie-heavy) and float vectors, queries incl. stored points, k in {1..40}; judged only where n<=max(ef,k); oracle: the score sequence equals the sorted brute-force distances[:min(k,n)] exactly and every id's true distance equals its score; non-trivial = n>=3 with upper levels or ties present; distinct = distinct case JSON",
 		Gen:      genExact,
 		Replicas: pbt.Pick(2, 4),
 		Check:    checkExact,
